@@ -23,6 +23,7 @@ LEVEL_NOTE = ("Not decided: equality of results over all permutations (a schedul
 LEVEL_TEXT += (" (C06.C) the checker context holds no interior mutability, so the checker's verdict cannot depend on stanza order either.")
 LEVEL_TEXT += (' (E5.keep) deferred work is never filtered, de-duplicated, truncated or reordered outside the listed sites; E3.l includes the must-pass-through form (no successful checker path avoids the locality test of an eagerly evaluated source).')
 LEVEL_TEXT += (' (E6.r) the collection phase never reads a field of the deferred stores, not even through a new accessor; (E6.s) the evaluation context consists of references only (no depth / budget counters, whose exhaustion would depend on forcing order); (E5.key) no text-keyed tables.')
+LEVEL_TEXT += (' (E5.edge) edges are a set whatever the order of the deferred edge statements: GraphNode.outgoing_edges is mutated only by add_edge, which searches the whole vector by sink and inserts a fresh edge at the miss index (shared with C09 and C17).')
 
 
 def lazy_routing(prog, rep):
@@ -184,6 +185,13 @@ def run(prog, rep):
     # symmetric attribute conflicts
     e5.attributes_add_shape(prog, rep, "E5.add")
     rep.rule("E5.add", "Attributes::add reports a conflict exactly when the stored value differs (symmetric in the two values)")
+    # edges are a set: the order in which deferred edge statements run cannot matter (shared with C09 / C17)
+    rep.rule("E5.edge", "edge creation is order-insensitive: outgoing_edges is mutated only by add_edge's insert at the binary-search miss index "
+                        "(one key extractor over the whole vector, fresh Edge; Ok=new, Err=existing)")
+    nw = e5.check_writers(prog, rep, "E5.edge", "tsg::graph::GraphNode", "outgoing_edges", {("add_edge", "insert")},
+                          "edges may only be inserted at the sorted position found by add_edge (set semantics, ascending sinks)")
+    rep.floor("E5.edge", nw, 1, "edge-vector mutation sites")
+    e5.add_edge_shape(prog, rep, "E5.edge")
 
 
 def _run_c06_subset(prog, rep):
